@@ -743,6 +743,7 @@ impl std::error::Error for MockParamError {}
 #[derive(Debug)]
 pub enum MockFitError {
     Params(MockParamError),
+    #[allow(dead_code)]
     Base(linfa::Error),
 }
 impl std::fmt::Display for MockFitError {
